@@ -91,6 +91,22 @@ Proof.
     + intros [[->|H1] H2]; auto.
 Qed.
 
+Lemma upd_upd : forall A (l : list A) i x y, upd i x (upd i y l) = upd i x l.
+Proof. induction l as [|a l IH]; intros [|i] x y; simpl; auto. rewrite IH. auto. Qed.
+
+Lemma upd_same : forall A (l : list A) i x, nth_error l i = Some x -> upd i x l = l.
+Proof.
+  induction l as [|a l IH]; intros [|i] x H; simpl in *; try discriminate; auto.
+  - inversion H; auto.
+  - rewrite IH; auto.
+Qed.
+
+Lemma count_le : forall A (p q : A -> bool) (l : list A), (forall x, p x = true -> q x = true) -> count p l <= count q l.
+Proof.
+  induction l as [|a l IH]; simpl; intros H; auto. specialize (IH H).
+  destruct (p a) eqn:E; [rewrite (H _ E)|destruct (q a)]; lia.
+Qed.
+
 Section TS.
   Context {G T : Type}.
   Variable tstep : nat -> G -> T -> option (G * T).
@@ -131,4 +147,25 @@ Section TS.
     - inversion H; auto.
     - destruct (step tstep s t); [|discriminate]. eauto.
   Qed.
+
+  Lemma lrun_run_n : forall k t (s : state) th g' th', nth_error (thr s) t = Some th ->
+    lrun tstep t k (glob s) th = Some (g', th') -> run_n tstep t k s = Some (St g' (upd t th' (thr s))).
+  Proof.
+    induction k; simpl; intros t s th g' th' Hn H.
+    - inversion H; subst. rewrite upd_same by auto. destruct s; reflexivity.
+    - destruct (tstep t (glob s) th) as [[g1 th1]|] eqn:E; [|discriminate].
+      unfold step. rewrite Hn, E.
+      erewrite IHk; [|simpl; eapply nth_upd_eq; eauto|simpl; eauto]. simpl. rewrite upd_upd. reflexivity.
+  Qed.
+
+  Lemma lrun_add : forall a b t g th g1 th1, lrun tstep t a g th = Some (g1, th1) ->
+    lrun tstep t (a + b) g th = lrun tstep t b g1 th1.
+  Proof.
+    induction a; simpl; intros b t g th g1 th1 H.
+    - inversion H; auto.
+    - destruct (tstep t g th) as [[g2 th2]|]; [|discriminate]. eauto.
+  Qed.
+
+  Lemma run_reach : forall sched s0 s, run tstep sched s0 = Some s -> reach tstep s0 s.
+  Proof. intros. eapply reach_trans_run; eauto. constructor. Qed.
 End TS.
